@@ -89,6 +89,88 @@ PROPS["C09"] = dict(
     level_note="Trusted: Lean kernel; model of pfcp.go:273-283,153-175 and transaction.go:57-109 (checked against the code each run); timers are injected events.",
 )
 
+PROPS["C01"] = dict(
+    module="UpfVerif.Props.C01",
+    streams=[_ctl(3, "mix")],
+    rule="ctl profile 'mix': histories over 3 peers (association, establishment, modification with all 16 rule lists, deletion, report "
+         "responses incl. SEID 0, reports, duplicates, expiries) with rule ids from small colliding pools incl. 0/max/missing id, and a keyed "
+         "fault oracle (0/10/30 % of create, update, query calls fail); the data-plane table of the reference driver is dumped after every event",
+    trusted_base=_CTL_TB + ["Spec/DataPlane.lean: reference data plane and the fault model (a remove fails only when the rule is absent)"],
+    assumptions=_CTL_ASSUME,
+    level_text="Kernel-checked (Props/C01.lean, Lemmas/CoreDP|CoreClose|CoreInv): for EVERY history, iteration order and driver answer stream respecting the "
+               "fault model, every data-plane rule belongs to a live session that has it recorded (run_inv, induction over all event lists); Update/Remove/Query "
+               "reach the driver only for recorded ids; Sess.Close withdraws every rule of the session whatever failed before (close_withdraws_all), hence "
+               "deletion / re-association / SEID-0 keep the invariant. Tie: S-ctl differential stream with per-event data-plane dumps + predicates on the implementation.",
+    level_note="Trusted: Lean kernel; hand-written model Model/Core.lean (checked against the real PfcpServer on every run, not proved equal); "
+               "Spec.DataPlane as the meaning of 'present in the data plane'; 'requested by a Create IE' is carried by the structure of the model "
+               "(ids enter the maps only in the Create methods).",
+)
+PROPS["C05"] = dict(
+    module="UpfVerif.Props.C05",
+    streams=[_ctl(4, "nodes")],
+    rule="ctl profile 'nodes': several nodes and sessions with deliberately coinciding rule ids and CP SEIDs, SEID reuse after deletion, re-association, "
+         "takeover (Modification with Node ID), SEID-0 report responses, reports",
+    trusted_base=_CTL_TB, assumptions=_CTL_ASSUME,
+    level_text="Kernel-checked (Props/C05.lean): driver calls of a Modification/Deletion Request carry the addressed SEID; the request rewrites only that session's "
+               "slot (every other SEID resolves to the same value: rules, counters, queues); re-association touches only SEIDs in the node's own set; SEID-0 removal "
+               "matches CP SEID and node address. Tie: S-ctl 'nodes' + frame predicates on the implementation's dumps.",
+    level_note="Trusted: as C01. Reading fixed in DESIGN.md §8: 'sessions established under that node id' = sessions attached to the node object registered under it; "
+               "takeover into an already registered node id orphans that node (known finding, recorded).",
+)
+PROPS["C08"] = dict(
+    module="UpfVerif.Props.C08",
+    streams=[_ctl(5, "mix")],
+    rule="ctl profile 'mix' incl. requests for unknown nodes/sessions, missing Node ID / F-SEID, equal CP SEIDs, Create PDR with and without UE IP",
+    trusted_base=_CTL_TB, assumptions=_CTL_ASSUME,
+    level_text="Kernel-checked (Props/C08.lean): every datagram caused by a request goes to the requester with its sequence number (invariant over all histories); "
+               "Modification/Deletion Responses carry the session's CP SEID or SEID 0 + cause 65; misses and unanswered requests leave no trace; the Establishment "
+               "Response's F-SEID resolves to the new session. Tie: S-ctl, datagrams decoded by the harness.",
+    level_note="Trusted: as C01. The recovery time stamp is compared for equality across all responses of a run by the harness (ts=same); that the field is written "
+               "once is a source fact, not a theorem.",
+)
+PROPS["C10"] = dict(
+    module="UpfVerif.Props.C10",
+    streams=[_ctl(6, "urr")],
+    rule="ctl profile 'urr': report batches (1-3 usage reports, 64-bit counters at boundaries, single-cause and arbitrary triggers, START) for live / unknown / ended "
+         "sessions and known / unknown URRs with every measurement-method x MNOP combination; node ids IPv4 and IPv6",
+    trusted_base=_CTL_TB, assumptions=_CTL_ASSUME,
+    level_text="Kernel-checked (Props/C10.lean): a usage batch for a live session is answered by exactly one Session Report Request to the owner with the peer's SEID; "
+               "each IE carries URR id, trigger and measured values unchanged, measurement IEs selected by method/MNOP; unknown sessions/URRs dropped without touching "
+               "the rest. Tie: S-ctl 'urr'; the kernel-side decoding (buffnetlink) is covered by the S-drv stream of C02/C03.",
+    level_note="Trusted: as C01; go-pfcp's IE encoders (harness decodes what was sent). Known finding: reports for sessions whose node id is IPv6/FQDN are dropped.",
+)
+PROPS["C11"] = dict(
+    module="UpfVerif.Props.C11",
+    streams=[_ctl(7, "urr")],
+    rule="ctl profile 'urr': kernel-originated reports, Query/Update/Remove URR, PDR removal, session deletion over several URRs and sessions, several reports per URR in one message",
+    trusted_base=_CTL_TB, assumptions=_CTL_ASSUME + ["fewer than 2^32 reports per URR (uint32 counter)"],
+    level_text="Kernel-checked (Props/C11.lean): an emitted IE carries the URR's counter and the counter then moves by exactly one; within a batch a URR's IEs carry "
+               "n..n+k-1 in order; other URRs untouched; re-creation resets to 0; no other method touches the counter. Tie: S-ctl 'urr' + numbering predicate on the datagrams.",
+    level_note="Trusted: as C01.",
+)
+PROPS["C12"] = dict(
+    module="UpfVerif.Props.C12",
+    streams=[_ctl(8, "urr")],
+    rule="ctl profile 'urr': Create/Update/Remove PDR with arbitrary URR lists (shared URRs, attach by Update PDR), Create/Remove/Query URR, deletion",
+    trusted_base=_CTL_TB, assumptions=_CTL_ASSUME,
+    level_text="Kernel-checked (Props/C12.lean): dissociation at count 1 queries once and returns TERMR-flagged reports, above 1 only decrements, at 0 is silent; Remove URR "
+               "flags TERMR, Query URR IMMER; Update PDR counts the URRs it newly names (history attached_by_update_then_removed). Tie: S-ctl 'urr'.",
+    level_note="PARTIAL: 'count = number of PDRs naming the URR' is proved for the mechanisms, not as a global invariant — it fails in the code for PDRs naming a URR "
+               "created later and for Create PDR / Create URR re-using a live id (overwrite without adjusting counts); those histories are generated and compared, "
+               "model and code agree on them.",
+)
+PROPS["C07"] = dict(
+    module="UpfVerif.Props.C07",
+    streams=[_ctl(9, "mix"), dict(name="malformed", args=["net=200"], shards=4, shards_thorough=12, seed_per_shard=True, timeout=600, timeout_thorough=3000)],
+    rule="ctl 'mix' (junk, truncated, unknown-type datagrams inside valid histories, SEIDs at all boundary classes) + malformed stream: structure-aware mutations of "
+         "valid PFCP messages (header fields, IE lengths, nested IEs, flag octets, ids) after valid prefixes, with the no-op and gtp5g IE decoding paths; liveness probe after each datagram",
+    trusted_base=_CTL_TB, assumptions=_CTL_ASSUME,
+    level_text="PARTIAL. Kernel-checked layer 1 (Props/C07.lean): all table accesses in range for every SEID in every reachable state, step total, heartbeat always answered, "
+               "unaddressed sessions intact. Layer 2 (go-pfcp decoding) is searched, not proved: malformed-datagram stream with panic/exit hooks and heartbeat probe.",
+    level_note="Not proved: go-pfcp message/IE decoders and go-gtp5gnl (third-party); the gtp5g driver's IE walk is exercised through the simulated netlink kernel. "
+               "Known finding: go-pfcp OuterHeaderCreation C-TAG/S-TAG decode panic (dependency).",
+)
+
 # properties not claimed yet (kept current; every property has a planned executable model, see DESIGN.md)
 NOT_APPLICABLE = {}
 for _i in range(1, 21):
